@@ -172,6 +172,11 @@ async def _special_session(loop, backend):
             info = await client.stat("/" + name)
             if info.get("type") != typ:
                 fails.append("MLST: %s reported as type %r, the backend says %r" % (name, info.get("type"), typ))
+            # the client's own yes/no answers derived from the stat
+            for fn, want in ((client.is_file, typ == "file"), (client.is_dir, typ == "dir"), (client.exists, True)):
+                got_b = await fn("/" + name)
+                if got_b is not want:
+                    fails.append("Client.%s(%r) answers %r, the backend says the entry is %r" % (fn.__name__, name, got_b, typ))
         try:
             await client.quit()
         except Exception:
